@@ -42,7 +42,7 @@ func genMux(seed uint64, n int, maxOps int, demux bool, emit func(interface{})) 
 			x := r.intn(100)
 			switch {
 			case len(live) == 0 || x < 8 || (churn && x < 35):
-				op := muxOp{Op: "add", ST: muxStreamTypes[r.intn(len(muxStreamTypes))], DK: r.pickS("none", "none", "si", "ud3", "ud10", "both")}
+				op := muxOp{Op: "add", ST: muxStreamTypes[r.intn(len(muxStreamTypes))], DK: r.pickS("none", "none", "si", "ud3", "ud10", "both", "none", "si", "ud3", "ud10", "both", "ud170")}
 				if r.intn(3) == 0 {
 					op.PID = 0
 					autoN++
